@@ -174,6 +174,26 @@ class World:
             b2, self.base)})
         self.broken_types = btypes + b2
         self.broken2_types = b2
+        # ... and a pair: one component names a datatype in full
+        # ('zcverif_dt.p1.conv'), the other by its last word only ('conv' is
+        # no datatype): the second is refused whatever was loaded before
+        self.dotted = space.new_name("dotted")
+        dtt = packages.gen_component_types(rng, model, "dq", 1)
+        dtt[0]["extends"] = None
+        dtt[0]["children"] = [
+            {"kind": "key", "name": "alpha", "datatype": "zcverif_dt.p1.conv",
+             "required": False, "handler": None, "attribute": None,
+             "default": None, "defaults": []}]
+        space.write(self.dotted, {"component.xml": packages.component_xml(
+            dtt, self.base)})
+        self.bare = space.new_name("bare")
+        brt = packages.gen_component_types(rng, model, "bw", 1)
+        brt[0]["extends"] = None
+        brt[0]["children"] = [dict(dtt[0]["children"][0], datatype="conv")]
+        space.write(self.bare, {"component.xml": packages.component_xml(
+            brt, self.base)})
+        self.bare_types = brt
+        self.dotted_types = dtt
         self.xml = family.render_xml(
             model, abstract_import=(self.base, "abstract.xml")
             if abstracts else None, head_xml=head)
@@ -275,6 +295,17 @@ def make_step(rng, w, kind):
             t = ctypes[0]
             tree["items"].insert(0, ["s", texts.mknode(t["name"], None,
                                                        "empty")])
+    elif kind == "import-broken" and getattr(w, "bare", None) and \
+            rng.random() < 0.4:
+        # the fully named datatype first (now or in an earlier step), then
+        # - or alone - the component that names it by its last word
+        if rng.random() < 0.6:
+            tree["items"].insert(0, ["raw", "%import " + w.dotted])
+            step["text"] = texts.render(tree)
+            return step
+        tree["items"].insert(0, ["raw", "%import " + w.bare])
+        t = w.bare_types[0]
+        tree["items"].append(["s", texts.mknode(t["name"], None, "empty")])
     elif kind == "import-broken":
         second = getattr(w, "broken2", None) and rng.random() < 0.5
         tree["items"].insert(0, ["raw", "%import " + (
@@ -423,6 +454,10 @@ def only_implementer_growth(problem, w, steps):
     # (a component that fails half-way has already registered the
     # implementers it defined before the failure)
     comp_types |= set(t["name"] for t in getattr(w, "broken_types", []))
+    comp_types |= set(t["name"] for t in getattr(w, "dotted_types", []))
+    comp_types |= set(t["name"] for t in getattr(w, "bare_types", []))
+    if getattr(w, "schema_level", None):
+        comp_types |= set(t["name"] for t in w.schema_level[1])
     for (p, a), (_, b) in zip(before, after):
         parts = p.strip("/").split("/")
         if len(parts) < 3 or parts[0] != "types" or \
